@@ -20,7 +20,7 @@ def raise_guards(f: Func, N: Normalizer, pm=None):
 
 def obligation(ctx, f: Func, label: str, spec_src: str, exc: str, *, rename=None, int_atoms=None,
                forall: bool = False, before_super: bool = False, before_call: Optional[str] = None,
-               inline: bool = False, loop_iter_suffix: str = ".ballots", extra_env=None):
+               inline: bool = False, loop_iter_suffix: str = "ballots", extra_env=None, allow_context: bool = False):
     """The union of the `raise exc` sites of f whose guard shares an atom with the spec must be
     equivalent to the spec, modulo the conditions of raises that precede them (early exits)."""
     N = Normalizer(f.node, rename=rename, inline=inline, int_atoms=int_atoms, extra_env=extra_env)
@@ -28,7 +28,13 @@ def obligation(ctx, f: Func, label: str, spec_src: str, exc: str, *, rename=None
     spec = simplify(Normalizer(None, None, inline=False, int_atoms=int_atoms).guard(ast.parse(spec_src, mode="eval").body))
     satoms = set(atoms_of(spec))
     allr = raise_guards(f, N, pm)
-    mine = [(r, g) for r, g in allr if set(atoms_of(g)) & satoms]
+    scored = []
+    for r, g in allr:
+        own = astx.path_condition(f.node, r, pm, carried=False)
+        n = len(set(atoms_of(simplify(N.guard(own[-1][0])))) & satoms) if own else 0
+        scored.append((n, r, g))
+    best = max((n for n, _, _ in scored), default=0)
+    mine = [(r, g) for n, r, g in scored if n == best and n > 0]
     if not mine:
         ctx.violated(f, f.node, label, f"no raise in {f.short} is conditioned on `{bool_key(spec)}`: the documented precondition is not enforced")
         return False
@@ -37,6 +43,14 @@ def obligation(ctx, f: Func, label: str, spec_src: str, exc: str, *, rename=None
     earlier = [g for r, g in allr if r.lineno < first_line and (r, g) not in mine]
     code = simplify(("or", [g for _, g in mine]))
     E = simplify(("or", earlier)) if earlier else ("const", False)
+    if allow_context:
+        # the documented condition applies inside an enclosing "when these parameters are given" block
+        own = astx.path_condition(f.node, mine[0][0], pm, carried=False)
+        ctxc = N.conj(own[:-1]) if len(own) > 1 else ("const", True)
+        spec = simplify(("and", [spec, ctxc]))
+        first_test = min((t.lineno for t, _ in own[:-1]), default=first_line)
+        earlier = [g for r, g in allr if r.lineno < first_line and (r, g) not in mine]
+        E = simplify(("or", earlier)) if earlier else ("const", False)
     try:
         same = equivalent(simplify(("or", [code, E])), simplify(("or", [spec, E])))
     except NotClosedForm as e:
@@ -50,7 +64,7 @@ def obligation(ctx, f: Func, label: str, spec_src: str, exc: str, *, rename=None
     if forall:
         for r, _ in mine:
             lp = astx.enclosing(r, pm, ast.For)
-            if lp is None or not astx.u(lp.iter).endswith(loop_iter_suffix):
+            if lp is None or loop_iter_suffix not in astx.u(lp.iter):
                 problems.append("the test is not inside a loop over every ballot")
                 break
             exits = [n for n in astx.walk_own(lp) if isinstance(n, (ast.Break, ast.Continue, ast.Return))]
